@@ -46,7 +46,7 @@ var keyPool = sync.OnceValue(func() []keyPair {
 
 // Op is one step.
 type Op struct {
-	K    string `json:"k"`    // init add delete get marshal corrupt
+	K    string `json:"k"`    // init add delete get marshal corrupt cdelete (all live slots deleted concurrently, each with its own key)
 	Slot int    `json:"slot"` // target slot id index
 	Key  int    `json:"key"`  // key pair index for the target slot / private key used
 	Auth int    `json:"auth"` // add: authorising slot
@@ -70,7 +70,7 @@ func Gen(t *rapid.T) Plan {
 	n := rapid.IntRange(4, 24).Draw(t, "n")
 	for i := 0; i < n; i++ {
 		p.Ops = append(p.Ops, Op{
-			K:    rapid.SampledFrom([]string{"init", "add", "add", "add", "add", "delete", "delete", "get", "get", "marshal", "marshal", "corrupt"}).Draw(t, "k"),
+			K:    rapid.SampledFrom([]string{"init", "add", "add", "add", "add", "add", "delete", "delete", "get", "get", "marshal", "marshal", "corrupt", "cdelete"}).Draw(t, "k"),
 			Slot: rapid.IntRange(0, 3).Draw(t, "slot"),
 			Key:  rapid.SampledFrom([]int{-1, -1, 0, 1, 2, 3, 4, 5}).Draw(t, "key"),
 			Auth: rapid.SampledFrom([]int{-1, -1, -1, 0, 1, 2, 3}).Draw(t, "auth"),
@@ -225,6 +225,62 @@ func Run(p Plan) (v hk.Verdict) {
 				delete(slots, sid)
 
 				deleted[sid] = true
+			}
+		case "cdelete":
+			if master == nil || len(slots) < 2 {
+				continue
+			}
+
+			// every live slot is deleted at the same time by the holder of its key: all but one must go through
+			var live []string
+			for id := range slots {
+				live = append(live, id)
+			}
+
+			sort.Strings(live)
+
+			errs := make([]error, len(live))
+
+			var wg sync.WaitGroup
+
+			for li, id := range live {
+				wg.Add(1)
+
+				go func() {
+					defer wg.Done()
+
+					errs[li] = ks.DeleteKeySlot(id, keys[slots[id]].priv)
+				}()
+			}
+
+			wg.Wait()
+
+			var kept []string
+
+			for li, id := range live {
+				if errs[li] != nil {
+					kept = append(kept, id)
+				}
+			}
+
+			if len(kept) != 1 {
+				v.Failf("step %d: %d live slots deleted concurrently, each with its own key: %d deletions were refused (errors %v), exactly one must be (the last slot can never be deleted, any other can)", i, len(live), len(kept), errs)
+
+				return v
+			}
+
+			for _, id := range live {
+				if id != kept[0] {
+					delete(slots, id)
+
+					deleted[id] = true
+				}
+			}
+
+			v.Label("concurrent-delete-of-all-slots")
+
+			if !checkAll(i, "after concurrent deletes", ks) {
+				return v
 			}
 		case "get":
 			got, err := ks.GetMasterKey(sid, keys[op.Key].priv)
